@@ -959,7 +959,7 @@ func (f *framing) rulePushbackFIFO(rule string) {
 	// buffered branch: returns buffer[0], stores buffer[1:]; else delegates to the channel reader
 	okBuffered, okDelegate := false, false
 	for _, r := range returnsOf(next) {
-		if ld, ok := r.Results[0].(*ssa.UnOp); ok && ld.Op == token.MUL {
+		if ld, ok := valueUnderFlags(r.Results[0], r.Block()).(*ssa.UnOp); ok && ld.Op == token.MUL {
 			if ia, ok := ld.X.(*ssa.IndexAddr); ok {
 				if fv, _ := loadedField(ia.X); fv == buf {
 					if k, isC := constInt(ia.Index); isC && k == 0 && isNilConst(r.Results[1]) {
@@ -997,7 +997,7 @@ func (f *framing) rulePushbackFIFO(rule string) {
 								if fv, _ := fieldOf(s.Addr); fv == buf {
 									if sl, ok := s.Val.(*ssa.Slice); ok && sl.High == nil && sl.Low != nil {
 										if k, isC := constInt(sl.Low); isC && k == 1 {
-											if fv2, _ := loadedField(sl.X); fv2 == buf && instrDominates(ins, r) {
+											if fv2, _ := loadedField(sl.X); fv2 == buf && instrDominatesT(ins, r) {
 												st = true
 											}
 										}
